@@ -5,8 +5,6 @@ package c03
 import (
 	"fmt"
 	"math/rand"
-	"reflect"
-	"sort"
 	"strings"
 
 	"github.com/google/pprof/profile"
@@ -494,59 +492,11 @@ func (u *universe) concrete(r *rand.Rand, samples []uSample, types [][2]string) 
 
 // ---- reference ------------------------------------------------------------------
 
-type vec []int64
+type vec = ref.Vec
 
-func viewOf(ps ...*profile.Profile) (map[string]vec, int) {
-	m := map[string]vec{}
-	n := 0
-	for _, p := range ps {
-		for _, rec := range ref.View(p) {
-			n++
-			k := rec.StackKey() + " || " + rec.LabelKey()
-			v := m[k]
-			if v == nil {
-				v = make(vec, len(rec.Values))
-			}
-			for i, x := range rec.Values {
-				v[i] += x
-			}
-			m[k] = v
-		}
-	}
-	for k, v := range m {
-		zero := true
-		for _, x := range v {
-			if x != 0 {
-				zero = false
-			}
-		}
-		if zero {
-			delete(m, k)
-		}
-	}
-	return m, n
-}
+func viewOf(ps ...*profile.Profile) (map[string]vec, int) { return ref.SumView(ps...) }
 
-func diffViews(want, got map[string]vec) string {
-	var d []string
-	for k, v := range want {
-		if g, ok := got[k]; !ok {
-			d = append(d, fmt.Sprintf("missing %s = %v", k, v))
-		} else if !reflect.DeepEqual(v, g) {
-			d = append(d, fmt.Sprintf("wrong value for %s: want %v got %v", k, v, g))
-		}
-	}
-	for k, v := range got {
-		if _, ok := want[k]; !ok {
-			d = append(d, fmt.Sprintf("extra %s = %v", k, v))
-		}
-	}
-	sort.Strings(d)
-	if len(d) > 6 {
-		d = d[:6]
-	}
-	return strings.Join(d, "\n")
-}
+func diffViews(want, got map[string]vec) string { return ref.DiffSum(want, got) }
 
 func headerExpect(ps []*profile.Profile) string {
 	var period, t, dur int64
